@@ -4,7 +4,7 @@ PID = "C11"
 
 
 def run(tier, seed):
-    return exec_common.run_exec(PID, tier, seed, 6, scns=("switch", "exec", "ryt", "replace"))
+    return exec_common.run_exec(PID, tier, seed, 6, scns=("switch", "exec", "ryt", "replace"), pre=exec_common.suspend_resume_model)
 
 
 def replay(path):
